@@ -84,6 +84,29 @@ func EncodeXML(w xmlstream.TokenWriter, v interface{}) error {
 	return nil
 }
 
+// nsFilter drops the namespace declaration that accompanies a namespaced name
+// (as in every start element produced by an xml.Decoder): encoding/xml writes
+// the declaration for the name by itself and would write it twice, see
+// https://mellium.im/issue/75.
+type nsFilter struct {
+	xmlstream.TokenWriter
+}
+
+func (f nsFilter) EncodeToken(t xml.Token) error {
+	if start, ok := t.(xml.StartElement); ok && start.Name.Space != "" {
+		attrs := make([]xml.Attr, 0, len(start.Attr))
+		for _, a := range start.Attr {
+			if a.Name.Space == "" && a.Name.Local == "xmlns" {
+				continue
+			}
+			attrs = append(attrs, a)
+		}
+		start.Attr = attrs
+		t = start
+	}
+	return f.TokenWriter.EncodeToken(t)
+}
+
 // EncodeXMLElement writes the XML encoding of v to the stream, using start as
 // the outermost tag in the encoding.
 //
@@ -97,7 +120,7 @@ func EncodeXMLElement(w xmlstream.TokenWriter, v interface{}, start xml.StartEle
 	if wt, ok := v.(xmlstream.WriterTo); ok {
 		var b bytes.Buffer
 		e := xml.NewEncoder(&b)
-		if _, err := wt.WriteXML(e); err != nil {
+		if _, err := wt.WriteXML(nsFilter{TokenWriter: e}); err != nil {
 			return err
 		}
 		if err := e.Flush(); err != nil {
